@@ -135,6 +135,17 @@ func directedExprs(cx *lib.Ctx) {
 		{`!secret`, map[string]cty.Value{"secret": m(cty.False)}, map[string]cty.Value{"secret": m(cty.True)}},
 		{`secret && true`, map[string]cty.Value{"secret": m(cty.False)}, map[string]cty.Value{"secret": m(cty.True)}},
 		{`false || secret`, map[string]cty.Value{"secret": m(cty.False)}, map[string]cty.Value{"secret": m(cty.True)}},
+		// a marked key whose type is not the collection's own key type (the index operator converts it first)
+		{`["a", "b"][secret]`, map[string]cty.Value{"secret": m(s("0"))}, map[string]cty.Value{"secret": m(s("1"))}},
+		{`xs[secret]`, map[string]cty.Value{"secret": m(s("0")), "xs": lst(s("a"), s("b"))}, map[string]cty.Value{"secret": m(s("1")), "xs": lst(s("a"), s("b"))}},
+		{`xs[secret]`, map[string]cty.Value{"secret": m(s("0")), "xs": tup(s("a"), cty.True)}, map[string]cty.Value{"secret": m(s("1")), "xs": tup(s("a"), cty.True)}},
+		{`mp[secret]`, map[string]cty.Value{"secret": m(cty.Zero), "mp": cty.MapVal(map[string]cty.Value{"0": s("x"), "1": s("y")})}, map[string]cty.Value{"secret": m(cty.NumberIntVal(1)), "mp": cty.MapVal(map[string]cty.Value{"0": s("x"), "1": s("y")})}},
+		{`mp[secret]`, map[string]cty.Value{"secret": m(cty.False), "mp": cty.MapVal(map[string]cty.Value{"false": s("x"), "true": s("y")})}, map[string]cty.Value{"secret": m(cty.True), "mp": cty.MapVal(map[string]cty.Value{"false": s("x"), "true": s("y")})}},
+		{`"state: ${mp[secret]}"`, map[string]cty.Value{"secret": m(cty.False), "mp": cty.MapVal(map[string]cty.Value{"false": s("x"), "true": s("y")})}, map[string]cty.Value{"secret": m(cty.True), "mp": cty.MapVal(map[string]cty.Value{"false": s("x"), "true": s("y")})}},
+		{`[for x in xs : x][secret.idx]`, map[string]cty.Value{"secret": cty.ObjectVal(map[string]cty.Value{"idx": m(s("0"))}), "xs": lst(s("a"), s("b"))}, map[string]cty.Value{"secret": cty.ObjectVal(map[string]cty.Value{"idx": m(s("1"))}), "xs": lst(s("a"), s("b"))}},
+		{`xs[secret]`, map[string]cty.Value{"secret": m(cty.Zero), "xs": lst(s("a"), s("b"))}, map[string]cty.Value{"secret": m(cty.NumberIntVal(1)), "xs": lst(s("a"), s("b"))}},
+		{`xs.0[secret]`, map[string]cty.Value{"secret": m(s("0")), "xs": tup(lst(s("a"), s("b")))}, map[string]cty.Value{"secret": m(s("1")), "xs": tup(lst(s("a"), s("b")))}},
+		{`mp[secret]`, map[string]cty.Value{"secret": m(s("a")), "mp": cty.MapVal(map[string]cty.Value{"a": s("x"), "b": s("y")})}, map[string]cty.Value{"secret": m(s("b")), "mp": cty.MapVal(map[string]cty.Value{"a": s("x"), "b": s("y")})}},
 	}
 	for _, p := range pairs {
 		e, diags := hclsyntax.ParseExpression([]byte(p.src), "", hcl.InitialPos)
